@@ -201,7 +201,7 @@ def enumerate_single_ops():
         "{\n  b = {\n    a.p = 1;\n    a.q = 2;\n  };\n}",
     ]
     layers_opts = ["", "let\n  x = 1;\nin\n", "let\n  x = 1;\n  y = x;\nin\nlet\n  x = 2;\n  v = \"0\";\nin\n",
-                   "let\n  inherit (pkgs) lib;\n  x = 1;\nin\n"]
+                   "let\n  inherit (pkgs) lib;\n  x = 1;\nin\n", "let\n  inherit (pkgs) lib;\nin\n"]
     ops = (
         [("set", p, v) for p in ["a", "b", "c", "zz", "a.p", "a.q", "a.z", "a.q.r", "a.q.z", "b.k", "b.z", "zz.k",
                                  "zz.k.j", "b.a.p", "b.a.z", "b.a.q.z", '"q-r"', '"a.p"', "x", "y", "version", "src", "@x", "@y", "@zz", "@@x",
